@@ -645,6 +645,8 @@ where
                 InternalSendAlloc::Join(join) => match join.join() {
                     Ok(result) => result,
                     Err(err) => {
+                        #[cfg(all(brotli_verif, feature = "std"))]
+                        verif_multi::record([6, index as u64, 2, 255, out_file_size as u64, 0, 0, 0]);
                         // keep joining the other jobs: the input can only be handed back to
                         // its owner once nobody else holds it
                         if compression_result.is_ok() {
@@ -657,6 +659,17 @@ where
         };
         match cur_result.compressed {
             Ok(compressed_out) if compression_result.is_err() => {
+                #[cfg(all(brotli_verif, feature = "std"))]
+                verif_multi::record([
+                    6,
+                    index as u64,
+                    1,
+                    254,
+                    out_file_size as u64,
+                    0,
+                    compressed_out.data_size as u64,
+                    0,
+                ]);
                 // an earlier chunk failed: there is nothing to append to, only release the buffer
                 <Alloc as Allocator<u8>>::free_cell(
                     &mut cur_result.alloc,
